@@ -90,7 +90,8 @@ Full statement / proved / missing
   system, any mixture of alt and non-alt formats — the hash-as-array form, the parameter lists of Types and the init hashes of
   object types included, no hypothesis — the model of ToString with its Indentation objects IS the directly written
   pretty-printer `refPPX`), `C20_x_typ` (a Type is its name and its parameters formatted as an Array under
-  the same map), `C20_x_width_partial` (width reached
+  the same map), `C20_x_width` (EVERY kind but the four whose ToString never looks at the width: the boundary of the
+  finding is exact), `C20_x_width_partial` (width reached
   wherever the code applies the string flags: SemVer, URI, SemVerRange — every letter, after fix 5c2f826 — and Type).  The full width
   statement `C20_x_width_full` is FALSE: `C20_x_width_fails` (known finding C20-width-ignored, narrowed: the ToString of Timespan,
   Timestamp and Sensitive never looks at the format; a type alias ignores the width too), `C20_x_alias`, `C20_x_otype_named` /
@@ -833,6 +834,26 @@ example : formatDirectiveX io0 "%-12s".toList (.semver "1.0.0".toList) = .text "
     formatDirectiveX io0 "%.5p".toList (.uri "a:b".toList) = .text "URI('".toList ∧
     honoursFlags .semver 'p' = true ∧ honoursFlags .semverRange 's' = true ∧
     formatDirectiveX io0 "%16p".toList (.typ "Integer".toList [.int 0, .int 9]) = .text "   Integer[0, 9]".toList := by decide +kernel
+
+/-- **width, every kind but four** — for EVERY value that is not a container and whose kind is not one of the four whose ToString never
+    looks at the width (Timespan, Timestamp, Sensitive, type alias: known finding C20-width-ignored), the text is at least as wide as
+    requested (for Integer / Float / Boolean the letters whose digits come from fmt's float code excepted, as in `C20_width` /
+    `C20_float_width`): the boundary of the finding is exact -/
+theorem C20_x_width (io : FloatIO) (d : Str) (f : Fmt) (v : XVal) (w : Nat) (s : Str) (h : Directive d f)
+    (hv : v.isContainer = false)
+    (hk : v.kind ≠ .tspan ∧ v.kind ≠ .tstamp ∧ v.kind ≠ .sensitive ∧ v.kind ≠ .talias)
+    (hfl : isFloatLetter f.letter = false ∨ (v.kind ≠ .int ∧ v.kind ≠ .float ∧ v.kind ≠ .bool))
+    (hw : f.width = some w) (hs : formatDirectiveX io d v = .text s) : w ≤ s.length := by
+  unfold formatDirectiveX formatX at hs
+  rw [h] at hs
+  have hg : getG kindKeys [(XKey.base .any, GTree.mk f none)] v = .mk f none := by
+    simp [getG, kindKeys, XKey.accepts]
+  exact fmtX_width_leaf kindKeys io _ Ind.default v hv hk w (by rw [hg]; exact hw) (by rw [hg]; exact C20_directive_go d f h)
+    (by rw [hg]; exact hfl) s hs
+
+example : formatDirectiveX io0 "%-9x".toList (.int 255) = .text "ff       ".toList ∧
+    formatDirectiveX io0 "%12p".toList (.otype "My::T".toList []) = .text "       My::T".toList ∧
+    formatDirectiveX io0 "%7p".toList (.regexp "a".toList) = .text "    /a/".toList := by decide +kernel
 
 /-- the full statement: every value that is not a container is rendered at least as wide as requested (the float-digit
     letters excepted as in `C20_width`) -/
